@@ -221,7 +221,7 @@ def configs(tier, seed):
                         N = required_N(lens, ortho=(norm == "ortho"))
                         if _deg(N) > 16:
                             continue
-                        if not full and osh is not None and (norm is None or nd > 2):
+                        if not full and osh is not None and nd > 2:
                             continue
                         if not center and osh is not None:
                             continue     # the property fixes the output-shape semantics only for centred transforms
